@@ -19,7 +19,7 @@ from vlib import wbsys
 
 PROPERTY_ID = "C05"
 RULE = ("random Hermitian models with 2-5 WFs in 1-3 co-centred groups (11 lattice families), matrices Ham, AA, BB, CC "
-        "(+SS), random permutation and Haar block-unitary; FFT grid up to 2x1x2 with generic dK; 16 tabulators / static "
+        "(+SS), as constructed or after do_ws_dist(mp_grid 3|4|[3,4,5]), random permutation and Haar block-unitary; FFT grid up to 2x1x2 with generic dK; 16 tabulators / static "
         "calculators; non-trivial = permutation moves WFs between different centres, or U mixes >=2 WFs while external "
         "terms are non-zero")
 ASSUMPTIONS = ["tolerance 1e-8*(1+scale)*max(1,(1e-3/gap)^2), gap = smallest band gap on the k set (harness bands); gaps in "
@@ -46,7 +46,10 @@ def case_st(draw):
     return dict(model=p, assign=list(assign), perm=list(draw(st.permutations(list(range(nw))))),
                 us=draw(st.integers(0, 2 ** 32)), NKFFT=draw(st.sampled_from([[1, 1, 1], [2, 1, 1], [1, 1, 2], [2, 1, 2]])),
                 dK=[draw(fl(0.01, 0.49)) for _ in range(3)],
-                Ef=draw(st.lists(st.sampled_from([-1.2, -0.4, 0.05, 0.6, 1.3]), min_size=1, max_size=2, unique=True)))
+                Ef=draw(st.lists(st.sampled_from([-1.2, -0.4, 0.05, 0.6, 1.3]), min_size=1, max_size=2, unique=True)),
+                # history of the system before it is relabelled: as constructed, or after do_ws_dist() (the R-vector
+                # object is then one that was assembled by the code from explicit left and right shifts)
+                prep=draw(st.sampled_from(["fresh", "fresh", "ws_dist"])), mp=draw(st.sampled_from([3, 4, [3, 4, 5]])))
 
 
 def haar(rng, n):
@@ -103,7 +106,17 @@ def check(case):
     has_SS = "SS" in model.mats
     assign = case["assign"]
     perm = np.array(case["perm"])
-    base_sys = wbsys.to_system(model)
+    def prepared(m):
+        sy = wbsys.to_system(m)
+        if case.get("prep") == "ws_dist":
+            sy.do_ws_dist(mp_grid=case["mp"])
+        return sy
+
+    base_sys = prepared(model)
+    if case.get("prep") == "ws_dist":
+        # minimal-distance replicas may move / split R-vectors: the model that is relabelled below is the one the code
+        # holds after this step (read back; relabelling itself never changes the R set)
+        model = wbsys.model_of_system(base_sys)
     base, kpts = evaluate(base_sys, case, has_SS)
     gaps = []
     for k in kpts:
@@ -119,7 +132,7 @@ def check(case):
         raise Violation("energies-vs-explicit-sum", "tabulated energies differ from the harness band structure")
 
     # ---- permutation through System_R.reorder and through the harness model ------------------------
-    s_re = wbsys.to_system(model)
+    s_re = prepared(wbsys.make_model(case["model"]))
     s_re.reorder(perm)
     pm = wbsys.Model(model.lattice, model.wcc_red[perm], model.iRvec,
                      {k: X[:, perm][:, :, perm] for k, X in model.mats.items()})
@@ -163,7 +176,7 @@ def check(case):
     mixes = max(np.sum(np.array(assign) == g_) for g_ in set(assign)) >= 2
     ext = np.max(np.abs(base["tOmega"] - base["tOmega_int"])) > 1e-8
     return ok(moved or (mixes and ext), "perm-moves-centres" if moved else None, "U-mixes" if mixes else None,
-              "ext-terms" if ext else None, f"nw={nw}", f"groups={len(set(assign))}", "SS" if has_SS else None)
+              "ext-terms" if ext else None, case.get("prep", "fresh"), f"nw={nw}", f"groups={len(set(assign))}", "SS" if has_SS else None)
 
 
 SUBS = [Sub("basis", case_st(), check, quick=48, thorough=960, budget_quick=80, budget_thorough=500)]
